@@ -7,7 +7,7 @@ import logging
 from core import Case
 
 PROP = 'C16'
-COQ_TARGETS = ['theories/CovFacts.vo']
+COQ_TARGETS = ['theories/CovRun.vo']
 COQ_IMPORTS = 'From Bac Require Import Base Cov.'
 RULE = ('cases: seeded timelines of 6..28 events over a device with 6 objects (analogValue, analogInput, binaryValue, '
         'multiStateValue, pulseConverter [covPeriod 0 or 3..20 s], calendar = no COV support; + an unknown object id) and 3 subscriber '
